@@ -97,7 +97,7 @@ def run(ctx, tab, cases):
     ctx.cov["h5_trace"] = {"executions": n_exec, "events": n_ev, "own_sources": own, "left_out_too_large": skipped}
     if n_ev == 0:
         raise vlib.MachineryError("no H5 events recorded (hooks build without CPROC_VERIF?)")
-    r = ctx.tlc("Trace_Init", "Trace_Init.cfg", workers=1, env={"TRACE": trace}, timeout=1500, heap="3g")
+    r = ctx.tlc("Trace_Init", c07.cfg_for(ctx, "Trace_Init.cfg"), workers=1, env={"TRACE": trace}, timeout=1500, heap="3g")
     if r.rc == 0:
         ctx.validated(n_exec)
         ctx.count("h5-trace", nontrivial=True, n=n_ev)
